@@ -7,39 +7,15 @@ import JediVerif.Impl.Lqibe
 namespace Jedi.Driver
 open Jedi.Impl Jedi.Wk
 
-/-- a reader over a byte buffer that fails (returns none) when an embedded element is not a
-canonical encoding of a subgroup element. -/
-abbrev BR := StateT (List UInt8) Option
-def brTake (n : Nat) : BR (List UInt8) := do
-  let bs ← get
-  if bs.length < n then failure
-  set (bs.drop n); pure (bs.take n)
-def brG1 (comp : Bool) : BR G1Pt := do let b ← brTake (g1Size comp); match decG1 comp b with | some p => pure p | none => failure
-def brG2 (comp : Bool) : BR G2Pt := do let b ← brTake (g2Size comp); match decG2 comp b with | some p => pure p | none => failure
-
-def unmarshalParams (comp : Bool) (l : Nat) : BR WParams := do
-  let sb ← brTake 1
-  let sg := sb.headD 0 != 0
-  let g ← brG2 comp; let g1 ← brG2 comp; let g2 ← brG1 comp; let g3 ← brG1 comp
-  let pairing ← if comp then pure (ateSpec g2 g1) else do let b ← brTake 576; pure (fq12OfBytes b)
-  let hsig ← if sg then brG1 comp else pure Pt.inf
-  let rec hs (k : Nat) (acc : List G1Pt) : BR (List G1Pt) :=
-    match k with | 0 => pure acc.reverse | k+1 => do let h ← brG1 comp; hs k (h :: acc)
-  let h ← hs l []
-  pure { g := g, g1 := g1, g2 := g2, g3 := g3, pairing := pairing, hsig := hsig, signatures := sg, h := h }
-
-def unmarshalKey (comp : Bool) (l : Nat) : BR WKey := do
-  let sb ← brTake 1
-  let sg := sb.headD 0 != 0
-  let a0 ← brG1 comp; let a1 ← brG2 comp
-  let bsig ← if sg then brG1 comp else pure Pt.inf
-  let rec slots (k : Nat) (acc : List (Nat × G1Pt)) : BR (List (Nat × G1Pt)) :=
-    match k with
-    | 0 => pure acc.reverse
-    | k+1 => do let h ← brG1 comp; let ib ← brTake 4; slots k ((ofBytesBE ib, h) :: acc)
-  let b ← slots l []
-  -- `unmarshal` leaves `bsig` untouched when the key has no signature support: not compared in that case
-  pure { a0 := a0, a1 := a1, signatures := sg, bsig := bsig, b := b }
+/-- Marshalled buffers are parsed with the unmarshalling models of `Impl/Marshal.lean` (`unmarshalParams`,
+`unmarshalKey`, `unmarshalCt`, `unmarshalSig`, `unmarshalMsk`; single elements with `readG1` / `readG2`) — the very
+definitions the round-trip and canonicity theorems of `Properties/C15b.lean` are about — over `canonicalDecoders`:
+an embedded element is accepted iff it is the canonical encoding of a subgroup element (C09), which is what the
+repaired validating decode accepts (`Proofs/EncodeProofs.lean`: `unmarshalParams_canonicalDecoders`, …: same result
+as over `checkedDecoders` for every buffer).  A buffer is *valid* iff this parse succeeds: then `unmarshal` must
+accept it with `checked` set or clear and produce the parsed object; otherwise `unmarshal(…, checked = true)` must
+reject it, and the outcome of the non-validating call is unspecified. -/
+def umD : Decoders := canonicalDecoders ateSpec
 
 /-- the concrete environment of LQ-IBE: Spec pairing, compressed encoders, big-endian Fq12 bytes -/
 def lqEnv : Lq.Env G1Pt G2Pt Fq12 := { e := ateSpec, enc1 := encG1 true, enc2 := encG2 true, encT := fq12Bytes }
@@ -63,10 +39,8 @@ def judgeScheme2 (op : String) (out : List String) : PS Bool := do
       | none => liftE (expectToks op ["-1"] out); pure true
       | some l =>
         if isP then
-          let r := (unmarshalParams comp l).run bs
-          match r with
-          | some (pp, rest) =>
-            if !rest.isEmpty then failPS "model: params reader left bytes over"
+          match unmarshalParams umD comp bs with
+          | some pp =>
             setSt { st with params := st.params.push { pp := pp, alpha := none, mskIdx := (match src with | some (_, _, i) => (st.params[i]?).bind (·.mskIdx) | none => none) } }
             liftE (runO (do
               oCheck (!((← oNat) != l)) "unmarshalled length"; oCheck (!((← oNat) != l)) "set_length"
@@ -93,10 +67,8 @@ def judgeScheme2 (op : String) (out : List String) : PS Bool := do
               if out.getD 2 "0" == "1" then setSt { st with params := st.params.push dummyParams }
               pure true
         else
-          let r := (unmarshalKey comp l).run bs
-          match r with
-          | some (k, rest) =>
-            if !rest.isEmpty then failPS "model: key reader left bytes over"
+          match unmarshalKey umD comp bs with
+          | some k =>
             let (pidx, pat, ga) := match src with
               | some (_, _, i) => match st.keys[i]? with | some k0 => (k0.pidx, k0.pat, k0.g2alpha) | none => (0, none, Pt.inf)
               | none => (0, none, Pt.inf)
@@ -127,9 +99,9 @@ def judgeScheme2 (op : String) (out : List String) : PS Bool := do
               if out.getD 2 "0" == "1" then setSt { st with keys := st.keys.push { pidx := 0, key := { a0 := .inf, a1 := .inf, signatures := false, bsig := .inf, b := [] }, pat := none } }
               pure true
     | "ct" =>
-      let r := (do let a ← brTake 576; let b ← brG2 comp; let c ← brG1 comp; pure (fq12OfBytes a, b, c) : BR (Fq12 × G2Pt × G1Pt)).run bs
-      match r with
-      | some ((a, b, c), _) =>
+      match unmarshalCt umD comp bs with
+      | some ct =>
+        let a := ct.a; let b := ct.b; let c := ct.c
         let base : CtRec := match src with
           | some (_, _, i) => (st.cts[i]?).getD { pidx := 0, al := none, msg := 1, a := a, b := b, c := c }
           | none => { pidx := 0, al := none, msg := 1, a := a, b := b, c := c, intact := false }
@@ -145,9 +117,9 @@ def judgeScheme2 (op : String) (out : List String) : PS Bool := do
           if out.head? == some "1" then setSt { st with cts := st.cts.push { pidx := 0, al := none, msg := 1, a := 1, b := .inf, c := .inf, intact := false } }
           pure true
     | "sig" =>
-      let r := (do let a0 ← brG1 comp; let a1 ← brG2 comp; pure (a0, a1) : BR (G1Pt × G2Pt)).run bs
-      match r with
-      | some ((a0, a1), _) =>
+      match unmarshalSig umD comp bs with
+      | some sg =>
+        let a0 := sg.a0; let a1 := sg.a1
         let base : SigRec := match src with
           | some (_, _, i) => (st.sigs[i]?).getD { pidx := 0, al := none, msg := 0, a0 := a0, a1 := a1, valid := false }
           | none => { pidx := 0, al := none, msg := 0, a0 := a0, a1 := a1, valid := false }
@@ -163,8 +135,8 @@ def judgeScheme2 (op : String) (out : List String) : PS Bool := do
           if out.head? == some "1" then setSt { st with sigs := st.sigs.push { pidx := 0, al := none, msg := 0, a0 := .inf, a1 := .inf, valid := false } }
           pure true
     | "msk" =>
-      match (brG1 comp).run bs with
-      | some (m, _) =>
+      match unmarshalMsk umD comp bs with
+      | some m =>
         setSt { st with msks := st.msks.push m }
         liftE (runO (do
           if (← oTok) != "1" then throw "unmarshal rejected a valid master key"
@@ -251,8 +223,9 @@ def judgeScheme2 (op : String) (out : List String) : PS Bool := do
     let ty ← liftP next; let comp := (← liftP next) == "1"; let chk := (← liftP next) == "1"; let bs ← liftP nextBytes
     match ty with
     | "params" =>
-      match (do let p ← brG2 comp; let sp ← brG2 comp; pure (p, sp) : BR (G2Pt × G2Pt)).run bs with
-      | some ((p, sp), _) =>
+      -- LQ-IBE objects are one or two bare elements: read with the element readers of Impl/Marshal.lean
+      match (do let (p, rest) ← readG2 umD comp bs; let (sp, _) ← readG2 umD comp rest; pure (p, sp) : Option (G2Pt × G2Pt)) with
+      | some (p, sp) =>
         setSt { st with lqParams := st.lqParams.push { p := p, sp := sp } }
         liftE (runO (do oCheck (!((← oTok) != "1")) "rejected valid params"; let _ ← oNat; expectEq "P" (← oG2) p; expectEq "sP" (← oG2) sp; oEnd) out); pure true
       | none =>
@@ -261,7 +234,7 @@ def judgeScheme2 (op : String) (out : List String) : PS Bool := do
           if out.head? == some "1" then setSt { st with lqParams := st.lqParams.push { p := .inf, sp := .inf } }
           pure true
     | "id" | "sk" =>
-      match (brG1 comp).run bs with
+      match readG1 umD comp bs with
       | some (p, _) =>
         if ty == "id" then setSt { st with lqIds := st.lqIds.push p } else setSt { st with lqSks := st.lqSks.push p }
         liftE (runO (do oCheck (!((← oTok) != "1")) "rejected valid element"; let _ ← oNat; expectEq "element" (← oA1) p; oEnd) out); pure true
@@ -271,7 +244,7 @@ def judgeScheme2 (op : String) (out : List String) : PS Bool := do
           if out.head? == some "1" then (if ty == "id" then setSt { st with lqIds := st.lqIds.push .inf } else setSt { st with lqSks := st.lqSks.push .inf })
           pure true
     | "ct" =>
-      match (brG2 comp).run bs with
+      match readG2 umD comp bs with
       | some (p, _) =>
         setSt { st with lqCts := st.lqCts.push (p, none) }
         liftE (runO (do oCheck (!((← oTok) != "1")) "rejected valid ciphertext"; let _ ← oNat; expectEq "rP" (← oA2) p; oEnd) out); pure true
